@@ -29,13 +29,70 @@ import (
 type stubTransport struct {
 	res  protocol.Message
 	seen *protocol.Message // when set, receives the request the client built
+	// byType, when set, answers by the request's API key (calls that make several round trips)
+	byType map[protocol.ApiKey]protocol.Message
 }
 
 func (s stubTransport) RoundTrip(_ context.Context, _ net.Addr, req kafka.Request) (kafka.Response, error) {
 	if s.seen != nil {
 		*s.seen = req
 	}
+	if s.byType != nil {
+		if r, ok := s.byType[req.ApiKey()]; ok {
+			return r, nil
+		}
+	}
 	return s.res, nil
+}
+
+// fConsumerOffsets: Client.ConsumerOffsets on an arbitrary OffsetFetch answer (any number of failing partitions, a
+// group-level error, partitions in any order) behind a Metadata answer listing the topic's partitions.
+//
+//	fcoffsets <group error> <part/offset/error,…>  → as coffsets: "<p=off,…>" | "err <code> <p=off,…>"
+func fConsumerOffsets(r *rand.Rand, n int) {
+	addr := kafka.TCP("stub:9092")
+	for i := 0; i < n; i++ {
+		np := 1 + r.Intn(5)
+		mt := metadata.ResponseTopic{Name: "t"}
+		for p := 0; p < np; p++ {
+			mt.Partitions = append(mt.Partitions, metadata.ResponsePartition{PartitionIndex: int32(p)})
+		}
+		of := &offsetfetch.Response{}
+		if r.Intn(8) == 0 {
+			of.ErrorCode = int16([]int{14, 30}[r.Intn(2)])
+		}
+		ot := offsetfetch.ResponseTopic{Name: "t"}
+		var enc []string
+		for _, p := range r.Perm(np) {
+			rp := offsetfetch.ResponsePartition{PartitionIndex: int32(p), CommittedOffset: int64(r.Intn(500))}
+			if r.Intn(3) == 0 { // several partitions of one answer may fail
+				rp.ErrorCode, rp.CommittedOffset = int16([]int{9, 14, 28}[r.Intn(3)]), -1
+			}
+			ot.Partitions = append(ot.Partitions, rp)
+			enc = append(enc, fmt.Sprintf("%d/%d/%d", rp.PartitionIndex, rp.CommittedOffset, rp.ErrorCode))
+		}
+		of.Topics = []offsetfetch.ResponseTopic{ot}
+		st := stubTransport{byType: map[protocol.ApiKey]protocol.Message{
+			protocol.Metadata:    &metadata.Response{Topics: []metadata.ResponseTopic{mt}},
+			protocol.OffsetFetch: of,
+		}}
+		cl := &kafka.Client{Addr: addr, Transport: st}
+		offs, err := cl.ConsumerOffsets(context.Background(), kafka.TopicAndGroup{Topic: "t", GroupId: "g"})
+		var ps []string
+		var ids []int
+		for p := range offs {
+			ids = append(ids, p)
+		}
+		sort.Ints(ids)
+		for _, p := range ids {
+			ps = append(ps, fmt.Sprintf("%d=%d", p, offs[p]))
+		}
+		res := dash(strings.Join(ps, ","))
+		if err != nil {
+			res = fmt.Sprintf("err %d %s", errCode(err), res)
+		}
+		emit(fmt.Sprintf("fcoffsets %d %s", of.ErrorCode, strings.Join(enc, ",")), res)
+	}
 }
 
 // fRequests: the request side of the mappings — what the client puts on the wire for a user-level request.
@@ -245,6 +302,7 @@ func fListOffsets(r *rand.Rand, n int) {
 
 func opMappingsF(r *rand.Rand, n int) {
 	fListOffsets(r, n)
+	fConsumerOffsets(r, n)
 	fRequests(r, n)
 	addr := kafka.TCP("stub:9092")
 	for i := 0; i < n; i++ {
